@@ -77,6 +77,9 @@ CLAIMS = {
     "C17": ("other", "taint analysis over type-checked MIR: sources = integers read by the LEB128 parsers, struct fields filled from them (computed per run), values yielded by hexane decoders; sinks = allocation sizes (with_capacity, vec![x; n], reserve, resize, repeat_n), ends of iterated integer ranges; sanitisers = min, len, take_n/split, try_reserve; interprocedural through 'parameter reaches a sink' summaries; plus an inventory of element-by-element materialisations of run-length columns over wire bytes in the parse layer",
             "Every allocation-size site and every iterated integer range in the automerge crate is examined; a wire-controlled size or bound without a sanitiser, and every column materialisation over wire bytes, is reported unless reviewed (tables/c17_sizes.tsv) or a listed known finding with a concrete input and measured cost.",
             "Level 'other'. Decides which wire numbers can size an allocation or a loop, not the polynomial bound itself nor the cost of merge / index algorithms. Fired on the pinned tree: a 9-byte Bloom filter cost 1 GB and 4 s per membership test (fix: e11ece4c1); bundle dep / pred counts used as Vec capacities, 'capacity overflow' panic (fix: cb9773955). Known findings (not small repairs: the format lets a run header announce 2^63 values): change-metadata columns, the bundle ID_CTR_INVERSE column and the bundle dep / pred loops materialise such runs; 120-140 byte inputs cost 256 MB - 2 GB and 1 - 38 s.", "DESIGN.md §3 C17"),
+    "C35": ("other", "panic-discipline inventory over the resolved-call closure of hexane's validating load entry points (bounds/division asserts, slice indexing, macro panics, Option::unwrap, signed negation) with dominance-based discharge patterns and reviewed rows; must-pass-through: validate_after dominates CutState::track with its error leaving; C39's who-may-trust rules re-run",
+            "Decides the 'loading arbitrary bytes returns a column or an error and never panics' clause structurally: every panic-capable construct on the path that validates untrusted column bytes is discharged, reviewed (tables/hexane_load_sites.tsv) or reported; every run-length segment is validated before it is accounted; the trusting decode path is reachable only where C39 allows.",
+            "Level 'other': inventory with reviewed rows, for one clause of C35. Not decided: value round-trip equality and cross-type loading (runtime values), add/mul overflow asserts of debug builds on adversarial run counts, resource amplification (C17). Fired on the pinned tree: a literal-run header of i64::MIN panicked the validating loader in builds with overflow checks (fix: a46047e5f).", "DESIGN.md §9.6"),
     "C03": ("other", "the error-after-mutation analysis of C06 restricted to the editing calls C03 lists, plus agreement of the op set's Action->ObjType table with the make-actions the encoder writes",
             "For put, put_object, insert, insert_object, delete, increment, splice, splice_text, mark, unmark, split_block, join_block: every (mutation, later error) pair in the functions they reach is discharged, reviewed or a known finding; and every object kind put_object can create is one the op set registers.",
             "Decides only the last sentence of C03 (an invalid call changes nothing) and the object-registration clause; the sequential effect itself is runtime-valued. Known finding: ObjType::Table objects are never registered (put_object returns an unusable id).", "DESIGN.md §3 C03"),
